@@ -184,6 +184,9 @@ pub(crate) struct RingReader<R> {
 
     // Absolute offset after bytes returned to the consumer.
     returned_total: u64,
+
+    // The first two bytes of the stream (the place of a UTF-16 byte-order mark).
+    stream_head: [u8; 2],
 }
 
 impl<R> RingReader<R> {
@@ -195,7 +198,15 @@ impl<R> RingReader<R> {
             ring_start_line: 1,
             stash: FixedRingBuffer::new(),
             returned_total: 0,
+            stream_head: [0; 2],
         }
+    }
+
+    /// True when the stream began with a UTF-16 byte-order mark. The retained bytes are then
+    /// UTF-16 code units: they are not text a snippet could be cut from, and the line
+    /// bookkeeping (which counts `\n` bytes) does not apply to them.
+    pub(crate) fn starts_with_utf16_bom(&self) -> bool {
+        matches!(self.stream_head, [0xFF, 0xFE] | [0xFE, 0xFF])
     }
 
     /// Absolute offset after bytes already returned to the consumer.
@@ -285,6 +296,9 @@ impl<R> RingReader<R> {
         let mut off = abs_start;
 
         for &b in bytes {
+            if off < 2 {
+                self.stream_head[off as usize] = b;
+            }
             if self.ring.is_empty() {
                 self.ring_start_offset = off;
             }
@@ -418,6 +432,11 @@ impl<R> SharedRingReader<R> {
         R: Read,
     {
         self.inner.borrow_mut().get_recent()
+    }
+
+    /// See [`RingReader::starts_with_utf16_bom`].
+    pub(crate) fn starts_with_utf16_bom(&self) -> bool {
+        self.inner.borrow().starts_with_utf16_bom()
     }
 
     /// Clone the inner Rc for sharing.
